@@ -9,6 +9,7 @@ type rtcase = {
   o : opts; custom_nf : bool; custom_na : bool; lateopt : bool; group : n list option;
   defs : (n list list * n list * bool) list;       (* raw methods, raw path, nil handler *)
   qs : (string * n list * n list) list;            (* kind, method, path *)
+  adds : (int * (n list list * n list * bool)) list;   (* query index -> definition registered at that point ("a" queries) *)
 }
 
 let parse_case = function
@@ -29,8 +30,23 @@ let parse_case = function
     { o = { o_strict = !strict; o_na = !na; o_fallback = !fb; o_caching = !caching; o_cap = nat_of_int !cap; o_intercept = !icpt };
       custom_nf = !nf; custom_na = !nal; lateopt = !late; group = !grp;
       defs = List.map (function L [L ms; p; nh] -> (List.map str ms, str p, bool nh) | x -> failwith ("rt: bad def " ^ to_string x)) ds;
-      qs = List.map (function L [A k; m; p] -> (k, str m, str p) | x -> failwith ("rt: bad query " ^ to_string x)) qs }
+      qs = List.map (function L [A "a"; L _; p; _] -> ("a", [], str p) | L [A k; m; p] -> (k, str m, str p) | x -> failwith ("rt: bad query " ^ to_string x)) qs;
+      adds = List.concat (List.mapi (fun i q -> match q with L [A "a"; L ms; p; nh] -> [(i, (List.map str ms, str p, bool nh))] | _ -> []) qs) }
   | x -> failwith ("rt: bad case " ^ to_string x)
+
+(* one definition: the new router and the stored definition, None when the registration panics *)
+let reg_def (o : opts) group rt i (ms, p, nh) =
+  match reg_path o.o_strict (match group with Some g -> [g] | None -> []) p with
+  | Panic -> None
+  | Ok path ->
+    let d = { df_methods = format_methods ms; df_path = path; df_nil_handler = nh; df_name = str_of_ascii ("r" ^ string_of_int i) } in
+    (match reg_route rt d with
+     | Ok rt' ->
+       (match List.rev rt'.routes with
+        | { rt_kind = KDyn (_, _, CUnsup, _); _ } :: _ -> raise Unsupported
+        | _ -> ());
+       Some (rt', d)
+     | Panic -> None)
 
 (* registration: returns router, reg outcomes, map model rid -> def index *)
 let build (c : rtcase) (caching : bool) =
@@ -92,8 +108,19 @@ let run_full (c : rtcase) =
   let (rt0, regs, ridmap) = build c true in
   let (tw0, _, _) = build c false in
   let rt = ref rt0 and tw = ref tw0 in
-  let qs = List.map (fun (k, m, p) ->
+  let ridmap_r = ref ridmap in
+  let next = ref (List.length c.defs) in
+  let qs = List.mapi (fun qi (k, m, p) ->
+      let ridmap = !ridmap_r in
       match k with
+      | "a" ->
+        (* a route registered on the running router (outside any group); the route cache is left as it is *)
+        let def = List.assoc qi c.adds in
+        let i = !next in incr next;
+        let ok = (match reg_def c.o None !rt i def with Some (rt', _) -> rt := rt'; true | None -> false) in
+        (match reg_def { c.o with o_caching = false } None !tw i def with Some (tw', _) -> tw := tw' | None -> ());
+        if ok then ridmap_r := ridmap @ [i];
+        L [A "a"; A (if ok then "ok" else "panic")]
       | "m" ->
         let (r, rt') = router_match !rt m p in rt := rt';
         let (tr, tw') = router_match !tw m p in tw := tw';
